@@ -54,6 +54,7 @@ type consumer struct {
 	ch    chan rtcm.Message
 	desc  string
 	slow  int
+	stall time.Duration // simulated time the consumer takes per message
 	got   []rtcm.Message
 	raw   [][]byte // private copies of RawData at receipt
 	close int
@@ -85,9 +86,13 @@ func runC09(c *hx.Ctx) *hx.Outcome {
 		if cs.ch != nil {
 			nonNil++
 			cs.slow = t.SW(5, 1, 1) * 4
+			cs.stall = []time.Duration{0, time.Millisecond, 900 * time.Millisecond, 5 * time.Second, 10 * time.Minute}[t.SW(30, 4, 2, 2, 1)]
+			if cs.stall > 0 {
+				o.Fault("consumer:stalls-in-simulated-time")
+			}
 		}
 		cons[i] = cs
-		descs = append(descs, fmt.Sprintf("%s slow=%d", cs.desc, cs.slow))
+		descs = append(descs, fmt.Sprintf("%s slow=%d stall=%v", cs.desc, cs.slow, cs.stall))
 	}
 	maxChunk := []int{1, 3, 64, 4096, 8096}[t.S(5)]
 	if c.Detail {
@@ -126,6 +131,10 @@ func runC09(c *hx.Ctx) *hx.Outcome {
 					for j := 0; j < cs.slow; j++ {
 						rt.Yield("consumer slow")
 					}
+					if cs.stall > 0 {
+						time.Sleep(cs.stall)
+						rt.Yield("consumer stalled")
+					}
 				}
 			})
 		}
@@ -144,6 +153,7 @@ func runC09(c *hx.Ctx) *hx.Outcome {
 	})
 	liveAtEnd = s.Live()
 	o.Verdict, o.Strategy = verdict, rt.StratNames[s.Strategy]
+	o.SimTime = s.Elapsed()
 	o.ProbeN("source-reads", src.Reads)
 	o.ProbeN("zero-length-reads", src.ZeroN)
 	o.ProbeN("data-returned-with-eof", src.DataErrs)
